@@ -2,6 +2,7 @@
    axioms every registered property theorem depends on; accepted: propext, Classical.choice, Quot.sound. -/
 import GoSquare.Properties.C01
 import GoSquare.Properties.C03
+import GoSquare.Properties.C04
 import GoSquare.Properties.C05
 import GoSquare.Properties.C06
 import GoSquare.Properties.C07
@@ -39,6 +40,20 @@ import GoSquare.Properties.C20
 #print axioms GoSquare.squareOf_ns_sorted
 #print axioms GoSquare.squareOf_length
 #print axioms GoSquare.sortedElems_ns_sorted
+#print axioms GoSquare.C04.every_blob_is_placed
+#print axioms GoSquare.C04.recorded_index_is_truthful
+#print axioms GoSquare.C04.ranges_disjoint_and_ordered
+#print axioms GoSquare.C04.construct_indexes
+#print axioms GoSquare.C04.blobShareRange_returns_the_range
+#print axioms GoSquare.construct_square
+#print axioms GoSquare.build_square
+#print axioms GoSquare.squareOf_blob_at
+#print axioms GoSquare.patched_records
+#print axioms GoSquare.placeIdx_aligned'
+#print axioms GoSquare.placeIdx_ordered
+#print axioms GoSquare.sortedElems_sorted
+#print axioms GoSquare.sortedElems_stable
+#print axioms GoSquare.allElements_keys
 #print axioms GoSquare.C05.aligned_block_is_row_inner_node
 #print axioms GoSquare.C05.subtree_roots_are_row_inner_nodes
 #print axioms GoSquare.C05.chunks_getElem
